@@ -25,7 +25,10 @@ RULE = (
     "invocation log of the wrapped function, equal cache_info() tuple and cache_parameters(); functools is the "
     "oracle while no discard happened (and cross-checks the model on that prefix), the model afterwards. "
     "Non-trivial: an eviction after a hit changed the recency order, or two equal-but-not-identical patterns "
-    "(1 / 1.0 / True, keyword order) were issued, or a discard removed an existing entry."
+    "(1 / 1.0 / True, keyword order) were issued, or a discard removed an existing entry. Stacked shard: a cache "
+    "of size m stacked on a cache of size n of the same function, calls and cache_clear on either level, compared "
+    "with the same stack of functools caches (results, invocation log, cache_info of BOTH levels after every step; "
+    "non-trivial: both levels served a hit)."
 )
 ASSUMPTIONS = [
     "CPython 3.12 functools.lru_cache and functools._make_key define argument-pattern identity",
@@ -327,8 +330,92 @@ def check(case):
             "labels": {k: 1 for k, v in stats.items() if v}}
 
 
+@st.composite
+def stacked_histories(draw, tier):
+    """a cache stacked on another cache of the same function (two-level caching)"""
+    sizes = st.sampled_from([None, 0, 1, 2, 3, 4, 128])
+    pool = draw(st.lists(CALL, min_size=2, max_size=6))
+    pick = st.one_of(st.sampled_from(pool), st.sampled_from(pool), CALL)
+    op = st.one_of(st.tuples(st.just("call"), st.just(0), pick), st.tuples(st.just("call"), st.just(0), pick),
+                   st.tuples(st.just("call"), st.just(0), pick), st.tuples(st.just("call"), st.integers(0, 1), pick),
+                   st.tuples(st.just("clear"), st.integers(0, 1)))
+    ops = draw(st.lists(op, min_size=6, max_size=40))
+    return {"kind": "stacked", "outer": draw(sizes), "inner": draw(sizes),
+            "typed": [draw(st.booleans()), draw(st.booleans())],
+            "ops": [[o[0], o[1]] + ([[list(o[2][0]), [list(p) for p in o[2][1]]]] if len(o) > 2 else [])
+                    for o in ops]}
+
+
+def check_stacked(case):
+    """differential against functools: level 0 is the outer cache, level 1 the inner one"""
+    ctx = Ctx("a")
+    alog, slog = [], []
+
+    def body(log, args, kwargs):
+        log.append((args, tuple(kwargs.items())))
+        if any(x == "boom" and isinstance(x, str) for x in list(args) + list(kwargs.values())):
+            raise ValueError("boom")
+        return result_for(args, kwargs, len(log))
+
+    async def afn(*args, **kwargs):
+        return body(alog, args, kwargs)
+
+    def sfn(*args, **kwargs):
+        return body(slog, args, kwargs)
+
+    a_inner = a.lru_cache(maxsize=case["inner"], typed=case["typed"][1])(afn)
+    a_outer = a.lru_cache(maxsize=case["outer"], typed=case["typed"][0])(a_inner)
+    s_inner = functools.lru_cache(maxsize=case["inner"], typed=case["typed"][1])(sfn)
+    s_outer = functools.lru_cache(maxsize=case["outer"], typed=case["typed"][0])(s_inner)
+    alev, slev = [a_outer, a_inner], [s_outer, s_inner]
+    both_hit = [False]
+
+    async def history():
+        for step, op in enumerate(case["ops"]):
+            name, level = op[0], op[1]
+            if name == "call":
+                args = tuple(_val(VALUES[i]) for i in op[2][0])
+                kwargs = {k: _val(VALUES[i]) for k, i in op[2][1]}
+                try:
+                    got = ("return", await alev[level](*args, **kwargs))
+                except Exception as exc:
+                    got = ("raise", type(exc).__name__)
+                try:
+                    want = ("return", slev[level](*args, **kwargs))
+                except Exception as exc:
+                    want = ("raise", type(exc).__name__)
+                if got != want:
+                    return ("call-result-differs", f"step {step} {op}: async={got} reference={want}")
+                if alog != slog:
+                    return ("wrapped-function-invoked-differently", f"step {step} {op}: {alog[-3:]} vs {slog[-3:]}")
+            else:
+                alev[level].cache_clear()
+                slev[level].cache_clear()
+            for lv in (0, 1):
+                if tuple(alev[lv].cache_info()) != tuple(slev[lv].cache_info()):
+                    return ("cache_info-differs", f"step {step} {op} level {lv}: async={tuple(alev[lv].cache_info())} "
+                                                  f"reference={tuple(slev[lv].cache_info())}")
+            # (functools' update_wrapper copies the inner cache_parameters attribute to the outer wrapper:
+            # a stdlib quirk, not compared for the outer level)
+            if dict(a_inner.cache_parameters()) != dict(s_inner.cache_parameters()):
+                return ("cache_parameters-differ", f"inner {a_inner.cache_parameters()}")
+            if dict(a_outer.cache_parameters()) != {"maxsize": case["outer"], "typed": case["typed"][0]}:
+                return ("cache_parameters-differ", f"outer {a_outer.cache_parameters()}")
+            if s_outer.cache_info().hits and s_inner.cache_info().hits:
+                both_hit[0] = True
+        return None
+
+    outcome = run(ctx, history())
+    problem = expect_return(outcome, "C10/stacked")
+    if problem:
+        raise Violation(f"C10/stacked/{problem[0]}", f"{problem[1]} outer={case['outer']} inner={case['inner']} "
+                                                     f"typed={case['typed']}")
+    return {"evaluations": 1, "nontrivial": ["x"] if both_hit[0] else [], "labels": {"stacked_both_levels_hit": int(both_hit[0])}}
+
+
 def shards(tier):
-    out = []
+    out = [Shard("stacked", check_stacked, strategy=stacked_histories(tier), n=500, nontrivial=lambda c: False,
+                 thorough_mult=25)]
     for kind in ("function", "method", "classmethod", "staticmethod"):
         for i in range(4):
             out.append(Shard(f"{kind}-{i}", check, strategy=histories(kind, tier), n=600,
